@@ -5,12 +5,12 @@ go 1.23.0
 require (
 	github.com/mmcloughlin/avo v0.0.0
 	golang.org/x/arch v0.15.0
+	golang.org/x/tools v0.31.0
 )
 
 require (
 	golang.org/x/mod v0.24.0 // indirect
 	golang.org/x/sync v0.12.0 // indirect
-	golang.org/x/tools v0.31.0 // indirect
 )
 
 replace github.com/mmcloughlin/avo => /repo
